@@ -14,12 +14,21 @@ import (
 )
 
 func genMAC(rt *rapid.T, label string) hexb {
+	switch rapid.IntRange(0, 7).Draw(rt, label+"-kind") { // degenerate MACs: all-zero (key 0 of the bindings map) and all-ones
+	case 0:
+		return zeros(6)
+	case 1:
+		return ones(6)
+	}
 	b := rapid.SliceOfN(rapid.Byte(), 6, 6).Draw(rt, label)
 	b[0] &^= 1
 	return b
 }
 
 func genV4(rt *rapid.T, label string, palin bool) []byte {
+	if !palin {
+		return genAddr(rt, label, 4) // random, or a degenerate value of the type (degen_test.go)
+	}
 	b := rapid.SliceOfN(rapid.Byte(), 4, 4).Draw(rt, label)
 	if palin {
 		if b[0] == 0 {
@@ -67,7 +76,7 @@ func TestPropControlPlane(t *testing.T) {
 		rangeSteer := kf2 && rapid.IntRange(0, 7).Draw(rt, "steer-kf2") != 0
 		v6Steer := kf4 && rapid.IntRange(0, 7).Draw(rt, "steer-kf4") != 0
 		nops := rapid.IntRange(2, 16).Draw(rt, "nops")
-		modesW := []uint8{modeStrict, modeStrict, modeStrict, modeLoose, modeLoose, modeLogOnly, modeDisabled}
+		modesW := []uint8{modeStrict, modeStrict, modeStrict, modeStrict, modeLoose, modeLoose, modeLogOnly, modeDisabled, 255}
 		for i := 0; i < nops; i++ {
 			k := rapid.SampledFrom([]string{"add4", "add4", "add4", "add6", "add6", "del", "mode", "range", "add4nil"}).Draw(rt, "op")
 			mac := rapid.IntRange(0, nmac-1).Draw(rt, "opmac")
@@ -95,7 +104,7 @@ func TestPropControlPlane(t *testing.T) {
 				ms[mac].v4, ms[mac].bound = nil, true
 				tc.Ops = append(tc.Ops, op{K: "add4nil", Mac: mac})
 			case "add6":
-				ip := rapid.SliceOfN(rapid.Byte(), 16, 16).Draw(rt, "ip6")
+				ip := genAddr(rt, "ip6", 16)
 				if ms[mac].v6 != nil {
 					ms[mac].old6 = append(ms[mac].old6, ms[mac].v6)
 				}
@@ -122,7 +131,7 @@ func TestPropControlPlane(t *testing.T) {
 						r = rng{IP: []byte{0, 0, 0, 0}, Plen: 0}
 					}
 				} else {
-					pl := rapid.IntRange(0, 32).Draw(rt, "plen")
+					pl := rapid.OneOf(rapid.IntRange(0, 32), rapid.SampledFrom([]int{0, 32, 32, 31, 1, 8})).Draw(rt, "plen")
 					base := genV4(rt, "rip", false)
 					if ms[mac].v4 != nil && rapid.Bool().Draw(rt, "around-bound") {
 						base = ms[mac].v4
@@ -146,7 +155,7 @@ func TestPropControlPlane(t *testing.T) {
 				if v6 {
 					cur, olds, size = ms[pm].v6, ms[pm].old6, 16
 				}
-				switch rapid.SampledFrom([]string{"bound", "bound", "old", "other-mac", "bit", "range", "rnd"}).Draw(rt, "psrc") {
+				switch rapid.SampledFrom([]string{"bound", "bound", "old", "other-mac", "bit", "range", "rnd", "zero", "ones", "special"}).Draw(rt, "psrc") {
 				case "bound":
 					src = cur
 				case "old":
@@ -164,6 +173,16 @@ func TestPropControlPlane(t *testing.T) {
 					if cur != nil {
 						src = flipBit(cur, rapid.IntRange(0, size*8-1).Draw(rt, "bit"))
 					}
+				case "zero":
+					src = zeros(size)
+				case "ones":
+					src = ones(size)
+				case "special":
+					if v6 {
+						src = rapid.SampledFrom(special6).Draw(rt, "special6")
+					} else {
+						src = rapid.SampledFrom(special4).Draw(rt, "special4")
+					}
 				case "range":
 					if !v6 && len(ranges) > 0 {
 						r := ranges[rapid.IntRange(0, len(ranges)-1).Draw(rt, "ri")]
@@ -178,7 +197,7 @@ func TestPropControlPlane(t *testing.T) {
 					}
 				}
 				if src == nil {
-					src = rapid.SliceOfN(rapid.Byte(), size, size).Draw(rt, "rndsrc")
+					src = genAddr(rt, "rndsrc", size)
 				}
 				et, ln := uint16(etIPv4), rapid.SampledFrom([]int{34, 60, 98, 1514}).Draw(rt, "len")
 				if v6 {
@@ -220,6 +239,9 @@ func TestPropControlPlane(t *testing.T) {
 		}
 		if palin {
 			o.class("steer:palindromic-v4")
+		}
+		for _, c := range degenerateClasses(tc) {
+			o.class(c)
 		}
 		record(tc, o)
 	})
